@@ -392,9 +392,126 @@ def body_C15(ctx):
                                 "accepted output parses as syn::Expr; every case also compared with the model's outcome class and tokens")
 
 
+SYNC_KINDS = ["a0t0s0", "a0t1s0", "a0t0s1", "a0t1s1"]
+
+
+def body_C03(ctx):
+    n = 160 if ctx.quick() else 1600
+    progs = scaffold_batch(ctx, SYNC_KINDS, n, max_depth=4, max_branches=4, fail_rate=(1, 12), handler_rate=(1, 4))
+    import k2
+    i = 0
+    for prof in ([(1, 2), (2, 2), (3, 1, 2), (1, 3, 3), (2, 3, 1, 4)] if ctx.quick() else
+                 [pr for nb in (1, 2, 3) for pr in __import__("itertools").product((1, 2, 3, 4), repeat=nb)]):
+        for kind in SYNC_KINDS:
+            progs.append(k2.gen_scaffold(ctx.rng, "q%d" % i, kind, profile=prof, fail_rate=(0, 1), block_rate=(1, 2)))
+            i += 1
+    run_k2(ctx, progs)
+    ctx.out.coverage["rule"] = ("sequential and thread-spawning macros over random and enumerated depth profiles; the real execution's "
+                                "global event log (callbacks, block captures, with thread names) must contain no event of step k+1 before "
+                                "the last event of step k, each chain must continue from its own previous value (values are mixed from "
+                                "the branch's own history), and value + per-thread events must equal the reference semantics")
+
+
+def body_C04(ctx):
+    import itertools
+    import k2
+    n = 120 if ctx.quick() else 1200
+    progs = scaffold_batch(ctx, SYNC_KINDS, n, max_depth=4, max_branches=6, fail_rate=(0, 1), handler_rate=(1, 2), name_rate=(1, 3))
+    profs = [(1,), (3,), (1, 2), (2, 1), (1, 3, 2), (3, 1, 3), (2, 2, 2), (1, 4, 2, 3), (4, 1, 1, 2), (1, 1, 3, 1, 2), (2, 1, 2, 1, 2, 1, 3)] if ctx.quick() \
+        else [pr for nb in (1, 2, 3, 4) for pr in itertools.product((1, 2, 3), repeat=nb)]
+    i = 0
+    for prof in profs:
+        for kind in SYNC_KINDS:
+            progs.append(k2.gen_scaffold(ctx.rng, "q%d" % i, kind, profile=prof, fail_rate=(0, 1), block_rate=(0, 1)))
+            i += 1
+    run_k2(ctx, progs)
+    items = [(k, s, "profiles") for s, _ in G.fam_profiles(4, 3)[:: (3 if ctx.quick() else 1)] for k in G.KINDS]
+    items += [(k, s, "large") for s in G.fam_large() for k in G.KINDS]
+    ctx.k1(mk_cases(items))
+    ctx.out.coverage["rule"] = ("all-success programs over enumerated and random depth profiles (1–7 branches), with/without handler and "
+                                "let names: every branch's value is mixed from (branch, steps taken), so a value at a wrong position or a "
+                                "touched finished branch changes the result tuple / handler arguments; K1 on every profile ≤4×3 and the "
+                                "24-branch band under all 8 configurations")
+
+
+def body_C06(ctx):
+    n = 200 if ctx.quick() else 2000
+    progs = scaffold_batch(ctx, ["a0t1s0", "a0t1s1"], n, fail_rate=(1, 3), max_depth=4, handler_rate=(2, 3), block_rate=(1, 3))
+    run_k2(ctx, progs)
+    ctx.out.coverage["rule"] = ("try macros with failure rate 1/3 per fallible operator, handlers in 2/3 of the programs, block captures: "
+                                "the executed event log (callbacks, captures, handler calls) must equal the reference semantics', i.e. "
+                                "nothing of a later step and no handler call after a failing step, every chain of the failing step present")
+
+
+def body_C11(ctx):
+    n = 160 if ctx.quick() else 1600
+    progs = scaffold_batch(ctx, SYNC_KINDS, n, block_rate=(2, 3), max_depth=3, fail_rate=(1, 10), name_rate=(1, 3))
+    run_k2(ctx, progs)
+    items = [(ctx.rng.pick(G.KINDS), s, "operators") for s in G.fam_operators() if "{" in s]
+    items += [(ctx.rng.pick(G.KINDS), s, "wrappers") for s in G.fam_wrappers() if "{" in s]
+    ctx.k1(mk_cases(items))
+    ctx.out.coverage["rule"] = ("programs with block operands on 2/3 of all operators (initial values included): capture events must come in "
+                                "branch-then-position order, once each, after the previous step's events and before the step's chain events, "
+                                "on the calling thread; K1 on every operator with block operands (both operands of fold/try_fold, in wrappers)")
+
+
+def body_C12(ctx):
+    n = 160 if ctx.quick() else 1600
+    progs = scaffold_batch(ctx, SYNC_KINDS, n, block_rate=(1, 2), name_rate=(2, 3), max_depth=4, fail_rate=(1, 10))
+    run_k2(ctx, progs)
+    items = [(ctx.rng.pick(G.KINDS), s, "lets") for s in G.fam_lets()]
+    ctx.k1(mk_cases(items))
+    ctx.out.coverage["rule"] = ("2/3 of the branches named (some `mut`), block captures in later steps snapshot every name in scope: the logged "
+                                "snapshots must equal the reference semantics' visible names (latest step result per named branch, wrapped in "
+                                "try macros, also for finished branches; nothing in step 0); results compared with the reference semantics")
+
+
+def body_C13(ctx):
+    n = 160 if ctx.quick() else 1600
+    progs = scaffold_batch(ctx, SYNC_KINDS, n, handler_rate=(1, 1), fail_rate=(1, 5), max_depth=3)
+    run_k2(ctx, progs)
+    items = [(k, s, "handlers") for s in G.fam_handlers() for k in G.KINDS]
+    reals, _ = ctx.k1(mk_cases(items))
+    # implementation-side oracle for the rejections
+    for r in reals:
+        if r.family != "handlers":
+            continue
+        n_handlers = len(re.findall(r"(?:^|, )(?:map|and_then|then) =>", r.src))
+        is_try = r.kind[3] == "1"
+        if n_handlers >= 2 and r.parse == "ok":
+            ctx.out.violation({"macro_kind": r.kind, "source": r.src, "what": "a second handler was accepted"}, True, "second-handler")
+        if n_handlers == 1 and r.parse == "ok":
+            kind_kw = re.search(r"(?:^|, )(map|and_then|then) =>", r.src).group(1)
+            wrong = (kind_kw == "then") == is_try
+            rejected = r.gen.startswith("panic:CfgReject")
+            if wrong != rejected:
+                ctx.out.violation({"macro_kind": r.kind, "source": r.src, "real_gen": r.gen,
+                                   "what": "handler `%s` in a %s macro: %s" % (kind_kw, "try" if is_try else "non-try",
+                                                                               "accepted" if wrong else "rejected")}, True, "handler-kind")
+    ctx.out.coverage["rule"] = ("every program has a handler (kind fitting the macro, any position, half of them defined by a block): handler "
+                                "definition/call events, arguments and result compared with the reference semantics; K1 family kind × "
+                                "handler kind × position with an implementation-side oracle for wrong-kind and second-handler rejection")
+
+
+def body_C18(ctx):
+    n = 200 if ctx.quick() else 2000
+    progs = scaffold_batch(ctx, SYNC_KINDS, n, panic_rate=(1, 8), max_depth=3, handler_rate=(1, 2), block_rate=(1, 3))
+    run_k2(ctx, progs)
+    ctx.out.coverage["rule"] = ("a panic injected with probability 1/8 at every callback / initial value / handler and at block captures: the "
+                                "macro expression must panic (caught by catch_unwind around the invocation, 20 s watchdog against a blocked "
+                                "caller), with exactly the reference semantics' events before it and none of a later step")
+
+
 PROPS = {
+    "C03": ("JoinModel.Props.C03", body_C03),
+    "C04": ("JoinModel.Props.C04", body_C04),
+    "C06": ("JoinModel.Props.C06", body_C06),
+    "C11": ("JoinModel.Props.C11", body_C11),
+    "C12": ("JoinModel.Props.C12", body_C12),
+    "C13": ("JoinModel.Props.C13", body_C13),
+    "C18": ("JoinModel.Props.C18", body_C18),
     "C15": ("JoinModel.Props.C20", body_C15),
-    "C05": ("JoinModel.Props.C20", body_C05),
+    "C05": ("JoinModel.Props.C05", body_C05),
     "C07": ("JoinModel.Props.C07", body_C07),
     "C20": ("JoinModel.Props.C20", body_C20),
 }
